@@ -150,7 +150,13 @@ class Block(Entity):
         tags = self._h5group.open_group("tags")
         if name in tags:
             raise exceptions.DuplicateName("create_tag")
-        tag = Tag.create_new(self.file, self, tags, name, type_, position)
+        try:
+            tag = Tag.create_new(self.file, self, tags, name, type_, position)
+        except Exception:
+            # a refused call must not leave a half-made tag behind
+            if name in tags:
+                tags.delete(name)
+            raise
         return tag
 
     # Source
